@@ -6,7 +6,8 @@ import vf
 
 GROUP = "Store"
 PKG = "internal/resources"
-THEOREMS = ["C30_refines_table", "C30_refines_table_state", "C30_old_refuted_badcol", "C30_old_refuted_nilfirst"]
+THEOREMS = ["C30_refines_table", "C30_refines_table_state", "C30_old_refuted_badcol", "C30_old_refuted_nilfirst",
+            "C30_old_refuted_reopen_key"]
 # (the extended operation set - SetPrimaryKey, Sort, ReadOne, UpdateOne, DeleteOne, reopen - is inside C30_refines_table)
 META = {
     "group": "Store",
@@ -15,19 +16,25 @@ META = {
                  "against a keyed in-memory table; byte-for-byte comparison of every SQL statement and bound "
                  "argument that reaches the SQLite driver with the model's, vm_compute correspondence of all "
                  "results, and an independent in-memory-table oracle on the real results",
-    "text": "C30_refines_table / C30_refines_table_state: for every schema and every history of create, create-if, "
-            "insert, read, update and delete with equality and comparison filters - including nil filters anywhere in "
-            "the list and filters naming an unknown column - the handle returns exactly the results (rows, counts, "
-            "errors) of a keyed in-memory table and leaves the same table behind, for every reading of the generated "
-            "where clause that treats `where c (and c)*` as the conjunction of its conditions. The pinned code was "
-            "refuted (C30_old_refuted_badcol: a filter on an unknown column made Delete/Update/Read apply to every "
-            "row; C30_old_refuted_nilfirst: a nil filter in front of a real one produced malformed SQL, reachable "
-            "from ReadAllPermissions) and repaired by 1e0c750d. The model's statement texts and bound arguments are "
-            "compared byte for byte with what reaches the driver on every run. "
-            "partial: what SQLite does with the generated text (clause parsing as hypothesis; comparison and "
-            "primary-key semantics as the model's val_cmp / keys_unique, validated only by the correspondence run on "
-            "type-correct filter values); Sort/ORDER BY, ReadOne/UpdateOne/DeleteOne, float columns, Postgres and "
-            "concurrent use of one handle are not modelled",
+    "text": "C30_refines_table / C30_refines_table_state: for every schema in which a column is found again by its own "
+            "field name and SQL name (schema_ok, computable) and every history of create, create-if, insert, read, update "
+            "and delete with equality and comparison filters - including nil filters anywhere in the list and filters "
+            "naming an unknown column - plus SetPrimaryKey, Sort, ReadOne, UpdateOne, DeleteOne and close-and-reopen of "
+            "the handle, the handle returns exactly the results (rows in the requested order, counts, errors) of a keyed "
+            "in-memory table and leaves the same table and handle state behind, for every reading of the generated "
+            "where clause that treats `where c (and c)*` as the conjunction of its conditions and every ORDER BY that "
+            "sorts ascending by the listed columns with ties in table order. The pinned code was refuted and repaired: "
+            "C30_old_refuted_badcol (a filter on an unknown column made Delete/Update/Read apply to every row) and "
+            "C30_old_refuted_nilfirst (a nil filter in front of a real one produced malformed SQL, reachable from "
+            "ReadAllPermissions) by 1e0c750d; C30_old_refuted_reopen_key (CreateIf on an existing table left the handle "
+            "without a key column, so ReadOne/UpdateOne/DeleteOne answered not-found for records that are there) by "
+            "704512eb. The model's statement texts (incl. ORDER BY and the primary-key column of CREATE TABLE) and bound "
+            "arguments are compared byte for byte with what reaches the driver on every run. "
+            "partial: what SQLite does with the generated text (clause parsing and ORDER BY as hypotheses; comparison "
+            "and primary-key semantics as the model's val_cmp / keys_unique, validated only by the correspondence run on "
+            "type-correct values); a handle that is reopened and never calls Create/CreateIf/SetPrimaryKey has no key "
+            "(modelled, part of the spec); float columns, Nullable/SetSQLType/SetSQLName, Postgres and concurrent use of "
+            "one handle are not modelled",
     "note": "Trusted: Coq kernel; hand-written model tied to the code by the correspondence; SQLite (modernc) for the "
             "meaning of the statements; the recording driver wrapper in harness/C30/c30_test.go (database/sql falls "
             "back to Prepare+Exec/Query through it); props/C30.py generator, encodings and the Python table oracle.",
@@ -151,7 +158,7 @@ def gen_history(rng, bad):
             hk = None
             ops.append({"op": k})
         else:
-            if k == "create" and hk is None:
+            if hk is None:
                 hk = 0
             ops.append({"op": k})
     ops.append({"op": "read", "filters": []})
@@ -293,7 +300,11 @@ def oracle(ops):
         if k == "create":
             out.append(create())
         elif k == "createif":
-            out.append("ok" if tbl is not None else create())
+            if tbl is not None:
+                hkey = 0 if hkey is None else hkey  # 704512eb: CreateIf flags the default key column too
+                out.append("ok")
+            else:
+                out.append(create())
         elif k == "setkey":
             hkey = colidx(o["name"])
             out.append("ok")
@@ -510,6 +521,8 @@ Definition wf_ok (c : case) := history_wf demo_cols (fst c).
 
 def classify(ops, i):
     """signature class of a disagreement at op i (for known-finding keys and replays)."""
+    if ops[i]["op"] in ("readone", "updateone", "deleteone"):
+        return "keyed-op"
     fs = ops[i].get("filters") or []
     real = [f for f in fs if f is not None]
     if any(resolve([f]) is None for f in real):
@@ -523,7 +536,7 @@ def run(ck):
     quick = ck.tier == "quick"
     ck.cov["rule"] = ("histories over verifRec{ID uuid; Name string; Age int; Active bool; Tags []string; Raw json.RawMessage} "
                       "on a fresh SQLite file each: create/createif, 2-5 inserts (4 uuids so keys collide), then 3-9 of "
-                      "insert/read/update/delete with 0-3 filters (20% nil per slot, eq/ne/lt/gt, 60% of the constants equal to a "
+                      "insert/read/update/delete/readone/updateone/deleteone/sort/setkey/reopen with 0-3 filters (20% nil per slot, eq/ne/lt/gt, 60% of the constants equal to a "
                       "stored value of that column, 30% of the records with zero/boundary fields - zero uuid, '', 0, false, [], "
                       "empty raw json -, column names in mixed "
                       "case, type-correct values incl. quotes and non-ASCII), 25% of the histories also use unknown column "
@@ -534,7 +547,9 @@ def run(ck):
               "SQLite compares bound values with stored ones as val_cmp (integers numerically, TEXT by memcmp, bool as 0/1) "
               "and enforces the primary key as keys_unique with statement-level rollback - validated by the correspondence "
               "run for type-correct filter values only",
-              "column names are ASCII (strings.EqualFold modelled by ASCII case folding)")
+              "column names are ASCII (strings.EqualFold modelled by ASCII case folding)",
+              "SQLite's ORDER BY c1, c2 returns the selected rows ascending by val_cmp on those columns (Section hypothesis "
+              "osem_sorts: ties in table order; the correspondence compares tied rows only as a multiset)")
     ck.trusted("harness/C30/c30_test.go (in-package overlay; recording driver wrapper around modernc sqlite)",
                "props/C30.py generator, encodings, Python keyed-table oracle",
                "correspondence evaluated by vm_compute in a generated cases file")
